@@ -1158,3 +1158,32 @@ def borrow(ctx, modname, rules):
     if not out:
         raise AnalysisBroken('%s: rules %s produced no instance' % (modname, sorted(rules)))
     return out
+
+
+# =============================================================================== fmtqfn(): the name of a queue file
+def fmtqfn_sites(db, rep, prog):
+    """fmtqfn(s, dir, id, split) on concrete message numbers up to 2^64-1: the name is dir + (id mod auto_split as computed in
+    the width of a message number) + "/" + id in decimal, NUL-terminated, and its length is what the sizing call announced"""
+    fn = db.fn('fmtqfn.c', 'fmtqfn')
+    split = 23
+    bad = None
+    n = 0
+    for ident in (0, 1, 22, 23, 1000, 2 ** 31 + 5, 2 ** 32 - 1, 2 ** 32, 2 ** 32 + 12, 3 * 2 ** 32 + 7, 2 ** 63 + 11, 2 ** 64 - 1):
+        for d, fl in ((b'mess/', 1), (b'info/', 1), (b'todo/', 0), (b'intd/', 0)):
+            want = d + (str(ident % split).encode() + b'/' if fl else b'') + str(ident).encode() + b'\0'
+            res = []
+            for sized in (False, True):
+                H = type('FQ', (SAConc, Conc), {})('fmtqfn')
+                st = {0: fs(0) if sized else fs(('&', 'OUT[0]')), 1: fs(('&', 'DIR[0]')), 2: fs(ident), 3: fs(fl), 'G:auto_split': fs(split)}
+                st.update(conc_string_cells('DIR', d))
+                _run_conc(db, rep, prog, fn, st, 'fmtqfn', H)
+                n += 1
+                if len(H.ends) != 1:
+                    raise AnalysisBroken('fmtqfn: %d ends for id %d' % (len(H.ends), ident))
+                end, val, tr = H.ends[0]
+                got = bytes((one(end.get('OUT[%d]' % k)) or 0) & 255 for k in range(len(want))) if not sized else None
+                res.append((one(val), got))
+            if (res[0] != (len(want), want) or res[1][0] != len(want)) and bad is None:
+                bad = 'fmtqfn(%r, %d, split=%d) with auto_split = %d writes %r (length %s, announced %s); documented: %r - the bucket is the message number modulo the split, taken on the whole number' % (
+                    d.decode(), ident, fl, split, res[0][1], res[0][0], res[1][0], want)
+    return {'fmtqfn:name=dir+(id-mod-split)+id-for-64-bit-message-numbers': (bad is None, 'fmtqfn.c:fmtqfn', bad or '%d runs, message numbers up to 2^64-1' % n, [])}
